@@ -197,6 +197,11 @@ impl<'a> AliasLexer<'a> {
             return Err(AliasSyntaxError::WrongModTone(self.kind, self.line, start))
         } }
 
+        // alias matrices only take binary values; the parser has no case for an alpha
+        if mod_val != "+" && mod_val != "-" {
+            return Err(AliasSyntaxError::UnknownCharacter(mod_val.chars().last().unwrap_or(val), self.kind, self.line, start))
+        }
+
         Ok(Some(AliasToken::new(tkn_kind, mod_val, AliasPosition::new(self.kind, self.line, start, self.pos))))
     }
 
